@@ -1114,6 +1114,8 @@ func buildPrio(sc *PrioSc) (simrt.Config, func()) {
 					}
 
 					for n := 0; n < b.N; n++ {
+						simrt.Note("write-start", int64(itemID(i, k)), 0)
+
 						if !simrt.SendOr("env:producer", chans[i], itemID(i, k), done) {
 							simrt.Note("write-abandoned", int64(itemID(i, k)), 0)
 							break script
